@@ -220,7 +220,14 @@ func theWorld() *world {
 
 // ---- executor --------------------------------------------------------------------------------
 
-type exec struct{}
+type encRec struct {
+	r   *Root
+	ptr reflect.Value
+	wt  bool
+	b   []byte
+}
+
+type exec struct{ encs []encRec }
 
 func (P) NewExec() hx.Executor { theWorld(); return &exec{} }
 
@@ -246,8 +253,46 @@ func (e *exec) Exec(op string) string {
 	toks := hx.Tokens(op)
 	wd := theWorld()
 	switch toks[0] {
-	case "case", "reg", "def":
+	case "case":
+		e.encs = nil
 		return "ok"
+	case "reg", "def":
+		return "ok"
+	case "cenc":
+		// every value this case has encoded so far is encoded again by several goroutines at once: the encoder's caches and
+		// scratch space are shared process-wide, the bytes must not depend on what other goroutines encode meanwhile
+		n := int(hx.ArgI(toks, "n", 8))
+		reps := int(hx.ArgI(toks, "reps", 50))
+		bad := make(chan string, n)
+		var wg sync.WaitGroup
+		for gi := 0; gi < n; gi++ {
+			wg.Add(1)
+			go func(gi int) {
+				defer wg.Done()
+				defer func() {
+					if rec := recover(); rec != nil {
+						bad <- "panic " + hx.PanicSite(debug.Stack())
+					}
+				}()
+				for k := 0; k < reps; k++ {
+					for j := range e.encs {
+						rec := e.encs[(j+gi)%len(e.encs)]
+						b, err := encodeRoot(rec.r, rec.ptr, rec.wt)
+						if err != nil || !bytes.Equal(b, rec.b) {
+							bad <- "differs"
+							return
+						}
+					}
+				}
+			}(gi)
+		}
+		wg.Wait()
+		select {
+		case m := <-bad:
+			return m
+		default:
+		}
+		return fmt.Sprintf("same n=%d", len(e.encs))
 	case "enc":
 		name, _ := hx.Arg(toks, "root")
 		r := wd.byName[name]
@@ -262,6 +307,7 @@ func (e *exec) Exec(op string) string {
 		if err != nil {
 			return "err"
 		}
+		e.encs = append(e.encs, encRec{r, ptr, pre != "-", b})
 		return "b=" + hx.Hex(b)
 	case "dec":
 		name, _ := hx.Arg(toks, "root")
@@ -446,6 +492,10 @@ func (P) Monitor(c *hx.CaseRun) []hx.Failure {
 				case b2 != want:
 					fs = append(fs, hx.Failure{Monitor: "roundtrip", Class: "roundtrip-reencode-differs", Site: "libs/ser", Msg: "decode(encode v) re-encodes differently: " + clipS(op, 300) + " -> " + clipS(ans, 300)})
 				}
+			}
+		case "cenc":
+			if !strings.HasPrefix(ans, "same") {
+				fs = append(fs, hx.Failure{Monitor: "encode_reentrant", Class: "concurrent-encodings-interfere", Site: "libs/ser/encode.go", Msg: "values encoded by several goroutines at once differ from their sequential encodings: " + ans})
 			}
 		case "enc":
 			if strings.HasPrefix(ans, "panic") {
